@@ -371,7 +371,8 @@ pub fn generate(profile: &str, seed: u64, n_ops: usize, blob: bool) -> History {
             _ => {
                 // reopen: usually right after a flush, sometimes with unflushed data
                 if profile != "fifo" || rng.chance(1, 3) {
-                    if rng.chance(3, 4) {
+                    // (the weak-delete discipline must not be broken by losing unflushed writes)
+                    if profile == "weak" || rng.chance(3, 4) {
                         ops.push(Op::FlushActive(Wm::Zero));
                     }
                     ops.push(Op::Reopen);
